@@ -32,6 +32,13 @@ pub struct Params {
     /// of the 48-bit seconds range a PTP timestamp can carry)
     #[serde(default)]
     pub base_kind: u8,
+    /// a second, worse, two-step master with a masterOnly port on the same segment, its clock
+    /// `second_master_off_s` away, its Sync sequence ids in lockstep with the parent's
+    /// (0 = absent, 1 = same ids, 2 = one ahead)
+    #[serde(default)]
+    pub second_master: u8,
+    #[serde(default)]
+    pub second_master_off_s: f64,
 }
 
 pub struct Outcome {
@@ -82,6 +89,11 @@ const CLEAN_MAX: [[(f64, f64); 5]; 5] = [
 /// worst case, with floors of 60 s / 30 s
 pub fn clean_class_deadlines(p: &Params) -> Option<(f64, f64)> {
     if !(p.offset_s < -0.2 || p.offset_s >= 5.0) {
+        return None;
+    }
+    // with a second master on the segment the slave may follow that one first (it announces
+    // earlier); the calibration was made without it, so only the generic bound applies
+    if p.second_master > 0 {
         return None;
     }
     if !(-3..=1).contains(&p.log_sync) || !(-3..=1).contains(&p.log_delay) {
@@ -142,7 +154,25 @@ pub fn simulate(p: &Params, horizon_s: f64) -> Outcome {
     if p.late_tx_ts {
         sim.nodes[si].tx_ts_latency_ns = 2 * (p.delay_ns + p.jitter_ns) + 1_000_000;
     }
-    sim.add_link(vec![(mi, 0), (si, 0)], p.delay_ns, p.jitter_ns, 0.0);
+    let mut ends = vec![(mi, 0), (si, 0)];
+    if p.second_master > 0 {
+        let off2 = (p.second_master_off_s * 1e9 * 4294967296.0) as i128;
+        let c2 = Arc::new(Mutex::new(SimClock::new(0, (t0 as i128 + off2) as u128, -p.ppm / 3.0)));
+        c2.lock().unwrap().record = false;
+        let mut b2 = Build::new(0x30);
+        b2.priority1 = 150;
+        b2.log_sync = p.log_sync;
+        b2.log_delay = p.log_delay;
+        b2.master_only = vec![true];
+        b2.clock = Some(c2);
+        b2.seed = p.seed ^ 3;
+        let Ok(m2) = b2.build() else { return out };
+        let m2i = sim.add_node(m2.node, ((p.seed >> 40) % 1_000_000_000) as u64);
+        sim.one_step.push(false);
+        sim.sync_seq_lockstep = Some((m2i, mi, p.second_master as u16 - 1));
+        ends.push((m2i, 0));
+    }
+    sim.add_link(ends, p.delay_ns, p.jitter_ns, 0.0);
     let bound = bound_ns(p);
     let tc = tc_s(p);
     let horizon = (horizon_s * 1e9) as u64;
@@ -219,6 +249,8 @@ pub fn gen_params(rng: &mut StdRng, i: u64) -> Params {
         seed: rng.gen(),
         late_tx_ts: rng.gen_bool(0.2),
         base_kind: [0u8, 0, 0, 0, 1, 2][rng.gen_range(0..6)],
+        second_master: [0u8, 0, 0, 0, 1, 2, 2][rng.gen_range(0..7)],
+        second_master_off_s: [0.001, -0.004, 0.3, -1.7][rng.gen_range(0..4)] * rng.gen_range(0.5..1.0),
     }
 }
 
@@ -242,6 +274,9 @@ pub fn run_case(rep: &mut Report, p: &Params, hist: &mut Vec<f64>, conv: &mut Ve
     }
     if p.base_kind != 0 {
         rep.ev("closed_loop_run_far_future_time_base");
+    }
+    if p.second_master > 0 {
+        rep.ev("closed_loop_run_with_second_master_on_segment");
     }
     if let Ok(path) = std::env::var("VP_C02_DUMP") {
         use std::io::Write;
@@ -307,7 +342,7 @@ pub fn run_case(rep: &mut Report, p: &Params, hist: &mut Vec<f64>, conv: &mut Ve
 
 pub fn run(rep: &mut Report, tier: &str, seed: u64, shard: (u32, u32), replay: Option<&str>) {
     rep.rule = "closed-loop runs: real statime master port (perfect clock) and real slave port with the default Kalman servo over a clock model with initial offset in +-10 s, oscillator error in +-150 ppm, symmetric delay 1-400 us, jitter 0-20 us, sync/delay intervals 2^-3..2^1 s, one-/two-step; corners and random interior points; truth sampled every 100 ms of virtual time; distinct = distinct parameter points; non-trivial = the port became slave and the servo issued commands".into();
-    rep.require(&["closed_loop_run", "set_frequency_calls", "step_clock_calls", "clean_class_run"]);
+    rep.require(&["closed_loop_run", "set_frequency_calls", "step_clock_calls", "clean_class_run", "closed_loop_run_with_second_master_on_segment"]);
     if let Some(path) = replay {
         let v: serde_json::Value = serde_json::from_str(&std::fs::read_to_string(path).unwrap()).unwrap();
         if let Ok(p) = serde_json::from_value::<Params>(v["case"].clone()) {
